@@ -302,7 +302,7 @@ class MultiTypeMap(dict):
                 finished = True
         print("Resolution:", message)
 
-    def wrap_dependent(self, tup, handlers, group, next_call):
+    def wrap_dependent(self, tup, handlers, group, next_call, below=()):
         handlers = list(handlers)
         htup = [(h, self.type_tuples[h]) for h in handlers]
         slf = (
@@ -317,7 +317,9 @@ class MultiTypeMap(dict):
             slf,
             name=f"{self.name}.specialized_dispatch_{next(self.dispatch_id)}",
             err=self.key_error(tup, group),
-            nerr=self.key_error(tup, ()),
+            # What falling through raises when there is no single method
+            # below: "no method", or the ambiguity of the tied rank below
+            nerr=self.key_error(tup, below),
         )
 
     def resolve(self, obj_t_tup):
@@ -326,12 +328,17 @@ class MultiTypeMap(dict):
             raise self.key_error(obj_t_tup, ())
 
         funcs = []
+        below = ()
         for group in reversed(results):
             handlers = [c.handler for c in group]
             dependent = any(self.dependent[c.handler] for c in group)
             if dependent:
                 nxt = self.wrap_dependent(
-                    obj_t_tup, handlers, group, funcs[-1] if funcs else None
+                    obj_t_tup,
+                    handlers,
+                    group,
+                    funcs[-1] if funcs else None,
+                    below,
                 )
             elif len(group) != 1:
                 nxt = None
@@ -339,6 +346,7 @@ class MultiTypeMap(dict):
                 nxt = handlers[0]
             codes = [h.__code__ for h in handlers if hasattr(h, "__code__")]
             funcs.append((nxt, codes))
+            below = group
 
         funcs.reverse()
 
